@@ -28,9 +28,13 @@ def cases(tier, seed):
     n_s, n_t = BOUNDS[tier]
     for m in sp.structures_upto(n_s):
         yield ('S', m)
-    from . import families
+    from . import families, rt
     for m in families.models():
         yield ('S', m)
+    for m in rt.collision_models():
+        yield ('K', m)
+    for t in families.deep_trees():
+        yield ('K', cm.on_carrier([t]))
     # typed features / feature cardinalities: full product on small carriers
     for n in range(1, n_t + 1):
         for m in sp.structures(n):
